@@ -3,6 +3,7 @@ Driver for C10.  One request per line, `k=v` fields separated by single spaces:
   op=ctor  T=<xsd type> V=<10|11|none> S=<code points, comma separated, `_` = empty>
   op=valid T=<xsd type> S=<…>
   op=canon T=<integer type|decimal|boolean> (I=<int> | S=<lexical form> | B=<0|1>)
+  op=tz S=<timezone text>   op=tzcanon M=<minutes>
   op=hexenc|b64enc Y=<octets, comma separated, `_` = empty>
   op=hex2b64|b642hex S=<stored value>
   op=cast  V=<10|11> K=<str|untyped|bool|int|dec|dbl> (S=<cps> | B=<0|1> | I=<int> | X=<nan|inf|-inf|neg:n:k> R=<repr cps>)
@@ -294,6 +295,21 @@ def answer (line : String) : String :=
         | none => out "ERR" "ERR" (showNats (XSD.b64Octets s)) ""
     | none => "bad-string"
   else if op == "cast" then castAnswer fs
+  else if op == "tz" then
+    match parseCPs (field fs "S") with
+    | some s =>
+      let m := match Lex.tzParse s with
+        | some v => s!"ok:{v}:{showCPs (Lex.tzCanon v)}"
+        | none => "ERR:V"
+      let sp := match XSD.timezoneVal? s with
+        | some v => s!"ok:{v}:{showCPs (XSD.timezoneCanon v)}"
+        | none => "ERR:V"
+      out m m sp ""
+    | none => "bad-string"
+  else if op == "tzcanon" then
+    match int? (field fs "M") with
+    | some v => out (showCPs (Lex.tzCanon v)) (showCPs (Lex.tzCanon v)) (showCPs (XSD.timezoneCanon v)) ""
+    | none => "bad-int"
   else "bad-op"
 
 def main : IO Unit := mainLoop answer
